@@ -43,6 +43,7 @@ type produced struct {
 	expect string        // what the result must be (from the inputs)
 	live   func() string // re-reads the live result
 	br     *bufio.Reader
+	msgs   []wsutil.Message // the slice a ReadMessage producer got back (recycled as m[:0] later)
 }
 
 var theURL, _ = url.ParseRequestURI("ws://example.com/")
@@ -164,6 +165,26 @@ func producers() []func() (produced, error) {
 					return strings.Join(parts, " ")
 				}}, err
 			})
+			// a message that is one final frame; the caller keeps the payload slices and later
+			// hands the message slice back as m[:0]
+			out = append(out, func() (produced, error) {
+				masked := side.ServerSide()
+				body := bytes.Repeat([]byte{'S'}, n)
+				wire := refmodel.Frame{H: refmodel.Hdr{Fin: true, Op: 1, Masked: masked, Mask: [4]byte{9, 9, 1, 1}}, Payload: body}.Wire()
+				ms, err := wsutil.ReadMessage(bytes.NewReader(wire), side, make([]wsutil.Message, 0, 4))
+				var kept [][]byte
+				for _, m := range ms {
+					kept = append(kept, m.Payload)
+				}
+				exp := fmt.Sprintf("%q", body)
+				return produced{name: fmt.Sprintf("ReadMessage-single-frame/state%d/len%d", side, n), expect: exp, msgs: ms, live: func() string {
+					var parts []string
+					for _, k := range kept {
+						parts = append(parts, fmt.Sprintf("%q", string(k)))
+					}
+					return strings.Join(parts, " ")
+				}}, err
+			})
 			out = append(out, func() (produced, error) {
 				p, op, err := wsutil.ReadData(env.RW{Reader: bytes.NewReader(mkStream(side)), Writer: env.NewDst()}, side)
 				exp := fmt.Sprintf("2:%q", bytes.Repeat([]byte{'M'}, n))
@@ -228,6 +249,17 @@ func recyclers() []recycler {
 			if p.br != nil {
 				ws.PutReader(p.br)
 				p.br = nil
+			}
+		}},
+		{"ReadMessage-into-recycled-slice", func(p *produced) {
+			// the message slice of the producer (or a stale one of our own) goes back in as m[:0]
+			m := p.msgs
+			if m == nil {
+				m, _ = wsutil.ReadMessage(bytes.NewReader(refmodel.Frame{H: refmodel.Hdr{Fin: true, Op: 2}, Payload: bytes.Repeat([]byte{'o'}, 300)}.Wire()), ws.StateClientSide, nil)
+			}
+			for _, n := range []int{1, 127, 128, 300, 4096, 4097} {
+				wire := refmodel.Frame{H: refmodel.Hdr{Fin: true, Op: 2}, Payload: bytes.Repeat([]byte{'Z'}, n)}.Wire()
+				m, _ = wsutil.ReadMessage(bytes.NewReader(wire), ws.StateClientSide, m[:0])
 			}
 		}},
 		{"HandleClose-other-reason", func(*produced) {
